@@ -1606,12 +1606,12 @@ class Model:
             Self: The instance of the model with the added reaction.
 
         """
-        self._insert_id(name=name, ctx="reaction")
-
         stoich: dict[str, Derived | float] = {
             k: Derived(fn=fns.constant, args=[v]) if isinstance(v, str) else v
             for k, v in stoichiometry.items()
         }
+        # Insert the id last, a stoichiometry that cannot be read must not leave the name behind
+        self._insert_id(name=name, ctx="reaction")
         self._reactions[name] = Reaction(
             fn=fn,
             stoichiometry=stoich,
